@@ -299,6 +299,92 @@ def directed_after_refusals(ctx):
     ctx.count("directed:refused-nested-derivations", n_refused)
 
 
+def directed_during_nested_stage(ctx):
+    """history that overlaps: WHILE one derivation is inside a nested stage lambda (in a method callback of a model class, which may
+    take its time), a caller-built lambda object is given to two streams that are followed differently - by the callback itself
+    (re-entrant, one thread), and by a second thread that runs exactly in that window (the two threads hand over with events, no
+    sleeping). The stream built first keeps its query"""
+    import threading
+    from typing import Iterable
+
+    from func_adl import EventDataset, func_adl_callback
+
+    class QA:
+        def q(self) -> float: ...
+
+    class QB:
+        def q(self, scale: float = 2.0) -> float: ...
+
+    class EvA:
+        def things(self) -> Iterable[QA]: ...
+
+    class EvB:
+        def things(self, cone: float = 0.4) -> Iterable[QB]: ...
+
+    class DS(EventDataset):
+        async def execute_result_async(self, a, title=None):
+            return a
+
+    found = []
+
+    def share_one_lambda(where):
+        for text in ("lambda e: e.things().Select(lambda t: t.q() + 1)", "lambda e: e.things().Where(lambda t: t.q() > 1).Count()"):
+            lam = astx.parse_expr(text)
+            s1 = DS(EvA).Select(lam)
+            before = astx.dump_fields(s1.query_ast)
+            kept = ast.dump(lam)
+            DS(EvB).Select(lam)
+            ctx.count("directed:shared-lambda-objects-while-another-derivation-is-in-a-nested-stage")
+            if astx.dump_fields(s1.query_ast) != before or ast.dump(lam) != kept:
+                found.append(f"{where}: one ast.Lambda object supplied to two typed streams while another derivation was inside a nested stage: deriving the second changed the first (or the caller's object): {astx.unparse(s1.query_ast)[:160]}")
+
+    mode = {"how": None}
+    inside, done = threading.Event(), threading.Event()
+
+    def cb(s, a):
+        if mode["how"] == "re-entrant":
+            share_one_lambda("from the callback itself")
+        elif mode["how"] == "second-thread":
+            inside.set()
+            if not done.wait(20):
+                ctx.count("inconclusive:second-thread-did-not-finish")
+        return s, a
+
+    class Jet:
+        @func_adl_callback(cb)
+        def pt(self) -> float: ...
+
+    class Ev:
+        def jets(self) -> Iterable[Jet]: ...
+
+    outer = ["lambda e: e.jets().Select(lambda j: j.pt())", "lambda e: e.jets().Select(lambda j: j.pt()).Where(lambda p: p > 1).Count()", "lambda e: e.jets().Where(f=lambda j: j.pt() > 2)"]
+    for text in outer:
+        mode["how"] = "re-entrant"
+        DS(Ev).Select(text)
+        mode["how"] = "second-thread"
+        inside.clear()
+        done.clear()
+
+        def second():
+            if not inside.wait(20):
+                ctx.count("inconclusive:callback-never-entered")
+                return
+            try:
+                share_one_lambda("from a second thread")
+            finally:
+                done.set()
+
+        th = threading.Thread(target=second)
+        th.start()
+        DS(Ev).Select(text)
+        done.set()
+        th.join(30)
+        mode["how"] = None
+        ctx.case("directed-during-nested-stage:" + text, True)
+    for f in found[:1]:
+        ctx.violation("shared-user-lambda-object-edited-in-place:during-another-nested-stage", f, {"directed": "during-nested-stage"})
+
+
 def shard_main(ctx):
     if ctx.shard == 1 % ctx.nshards:
         from ..core import repo_tests_under_monitors
@@ -311,6 +397,8 @@ def shard_main(ctx):
         directed_deep_chain(ctx)
     if ctx.shard == 2 % ctx.nshards:
         directed_after_refusals(ctx)
+    if ctx.shard == 4 % ctx.nshards:
+        directed_during_nested_stage(ctx)
     for i in range(N_CASES[ctx.tier]):
         if ctx.out_of_time():
             ctx.count("stopped-by-time-budget")
@@ -325,7 +413,9 @@ def shard_main(ctx):
 
 
 def replay(ctx, witness):
-    if witness.get("directed") == "after-refusals":
+    if witness.get("directed") == "during-nested-stage":
+        directed_during_nested_stage(ctx)
+    elif witness.get("directed") == "after-refusals":
         directed_after_refusals(ctx)
     elif witness.get("directed") == "deep-chain":
         directed_deep_chain(ctx)
